@@ -138,6 +138,39 @@ impl Big {
         }
         Some(v)
     }
+    /// self / d, returning the remainder
+    pub fn div_small(&mut self, d: u32) -> u32 {
+        let mut rem = 0u64;
+        for l in self.0.iter_mut().rev() {
+            let cur = (rem << 32) | *l as u64;
+            *l = (cur / d as u64) as u32;
+            rem = cur % d as u64;
+        }
+        self.trim();
+        rem as u32
+    }
+    pub fn to_string_radix(&self, radix: u32, upper: bool) -> String {
+        if self.is_zero() {
+            return "0".into();
+        }
+        let mut b = self.clone();
+        let mut out = Vec::new();
+        while !b.is_zero() {
+            let r = b.div_small(radix);
+            let c = std::char::from_digit(r, radix).unwrap();
+            out.push(if upper { c.to_ascii_uppercase() } else { c });
+        }
+        out.iter().rev().collect()
+    }
+    pub fn pow10(k: u64) -> Big {
+        let mut b = Big::from_u64(1);
+        b.mul_pow10(k);
+        b
+    }
+    pub fn sub_small(&mut self, a: u32) {
+        let one = Big::from_u64(a as u64);
+        *self = self.abs_diff(&one);
+    }
     pub fn pow2(k: usize) -> Big {
         let mut b = Big::from_u64(1);
         b.shl(k);
